@@ -68,10 +68,12 @@ REQUIRED_THEOREMS = [
     "solverStep_conserves", "solverRun_conserves", "solverRuns_conserves", "cellSteps_conserve",
     "cart1_run_conserves", "cart2_run_conserves", "cart3_run_conserves", "polar_run_conserves", "sph_run_conserves",
     "cyl_run_conserves",
+    "twoField_conserving", "twoField_readsOnly", "cart1_run2_conserves", "cart2_run2_conserves", "cart3_run2_conserves",
+    "polar_run2_conserves", "sph_run2_conserves", "cyl_run2_conserves",
     "d1_fun_sum_flux", "faceFlux_zero", "cart2_divergence_sum", "cart3_divergence_sum",
     "cyl_divergence_sum", "cyl_divergence_defect", "cyl_divergence_not_conservative",
 ]
-MIN_LEGS = {"run": 29}
+MIN_LEGS = {"run": 36}
 RULE = ("integral leg: seed-derived grids of all classes, integer field data, one random condition per side of any class "
         "(value, derivative, mixed, curvature, expressions, periodic; homogeneous and inhomogeneous) so that the integral is "
         "generally non-zero; zero leg: conserving conditions with random real data (also in the stale ghost cells) on all classes "
@@ -301,21 +303,31 @@ def run_case(arg):
     gd, eqname, coef, solver, backend, dt, ts, te, data = arg[:9]
     skw = arg[9] if len(arg) > 9 else {}
     grid = c02.make_grid(gd)
-    state = pde.ScalarField(grid, np.array(data, dtype=float).reshape(grid.shape))
-    if eqname == "diffusion":
-        eq = pde.DiffusionPDE(diffusivity=coef, bc="auto_periodic_neumann")
+    cons = lambda s: s  # noqa: the conserved field
+    if eqname == "two-fields":  # data = cells of `a`, then cells of `c`; only `c` is conserved
+        half = len(data) // 2
+        fa = pde.ScalarField(grid, np.array(data[:half], dtype=float).reshape(grid.shape), label="a")
+        fc = pde.ScalarField(grid, np.array(data[half:], dtype=float).reshape(grid.shape), label="c")
+        state = pde.FieldCollection([fa, fc])
+        eq = pde.PDE({"a": "laplace(a) - a", "c": f"laplace(c**3 - c + {coef!r} * a)"},
+                     bc_ops={"a:laplace": "auto_periodic_dirichlet", "c:laplace": "auto_periodic_neumann"})
+        cons = lambda s: s["c"]  # noqa
     else:
-        eq = pde.CahnHilliardPDE(interface_width=coef, bc_c="auto_periodic_neumann", bc_mu="auto_periodic_neumann")
-    i0 = float(state.integral)
-    sc0 = float(np.sum(grid.cell_volumes * np.abs(state.data)))
+        state = pde.ScalarField(grid, np.array(data, dtype=float).reshape(grid.shape))
+        if eqname == "diffusion":
+            eq = pde.DiffusionPDE(diffusivity=coef, bc="auto_periodic_neumann")
+        else:
+            eq = pde.CahnHilliardPDE(interface_width=coef, bc_c="auto_periodic_neumann", bc_mu="auto_periodic_neumann")
+    i0 = float(cons(state).integral)
+    sc0 = float(np.sum(grid.cell_volumes * np.abs(cons(state).data)))
     try:
         res, info = eq.solve(state, t_range=(ts, te) if ts else te, dt=dt, solver=solver, backend=backend, tracker=None,
                              ret_info=True, **(skw or {"adaptive": False}))
     except Exception as e:  # noqa
         return {"error": f"{type(e).__name__}: {e}"}
     return {"data": [float(x) for x in res.data.ravel()], "steps": int(info["solver"]["steps"]),
-            "t": float(info["controller"]["t_final"]), "i0": i0, "i1": float(res.integral),
-            "scale": max(sc0, float(np.sum(grid.cell_volumes * np.abs(res.data)))) + 1e-300}
+            "t": float(info["controller"]["t_final"]), "i0": i0, "i1": float(cons(res).integral),
+            "scale": max(sc0, float(np.sum(grid.cell_volumes * np.abs(cons(res).data)))) + 1e-300}
 
 
 def judge_run(rr):
@@ -330,6 +342,10 @@ RUN_STRATA = [  # (class, axes, scheme, equation, largest number of cells per ax
     ("polar", 1, "euler", "diffusion", 6, 5), ("polar", 1, "rk4", "diffusion", 5, 2), ("polar", 1, "euler", "cahn-hilliard", 5, 3),
     ("sph", 1, "euler", "diffusion", 6, 5), ("sph", 1, "rk4", "diffusion", 5, 2), ("sph", 1, "euler", "cahn-hilliard", 5, 3),
     ("cyl", 2, "euler", "diffusion", 4, 4), ("cyl", 2, "rk4", "diffusion", 3, 2), ("cyl", 2, "euler", "cahn-hilliard", 3, 2),
+    # two coupled fields (`a` not conserved, `c` conserved): twoFieldRate
+    ("cart", 1, "euler", "two-fields", 5, 3), ("cart", 2, "euler", "two-fields", 3, 2), ("cart", 1, "rk4", "two-fields", 3, 1),
+    ("polar", 1, "euler", "two-fields", 4, 2), ("sph", 1, "euler", "two-fields", 4, 2), ("cyl", 2, "euler", "two-fields", 3, 2),
+    ("cart", 3, "euler", "two-fields", 2, 2),
     # implicit Euler and Crank-Nicolson (fixed-point iterations; linear equation: exact rationals stay small)
     ("cart", 1, "implicit", "diffusion", 5, 3), ("cart", 2, "implicit", "diffusion", 3, 2), ("cart", 3, "crank-nicolson", "diffusion", 2, 2),
     ("cart", 1, "crank-nicolson", "diffusion", 5, 3), ("cart", 2, "crank-nicolson", "diffusion", 3, 2),
@@ -350,6 +366,8 @@ def gen_run(rng, stratum):
         per = [False]
     gd = {"cls": RUN_CLS[cls], "shape": shape, "bounds": [[l, l + d * n] for l, d, n in zip(lo, dxs, shape)], "periodic": per}
     dt = rng.choice([1 / 64, 1 / 128, 3 / 256]) if eqname == "diffusion" else rng.choice([1 / 1024, 1 / 2048])
+    if eqname == "two-fields":
+        dt = rng.choice([1 / 256, 1 / 512])
     skw = {}
     if scheme in ("implicit", "crank-nicolson"):  # documented solver options; small steps so that the iteration contracts (mostly)
         dt = rng.choice([1 / 512, 1 / 1024, 1 / 256])
@@ -362,7 +380,7 @@ def gen_run(rng, stratum):
     ts = rng.choice([0, 0, 0.5])
     te = ts + (steps + off) * dt
     coef = rng.choice([0.5, 1.0, 0.25, 1.5])
-    data = [rng.randint(-12, 12) / 4 for _ in range(int(np.prod(shape)))]
+    data = [rng.randint(-12, 12) / 4 for _ in range(int(np.prod(shape)) * (2 if eqname == "two-fields" else 1))]
     return {"grid": gd, "eq": eqname, "coef": coef, "scheme": scheme, "dt": dt, "ts": ts, "te": te, "data": data,
             "backend": rng.choice(["numpy", "numba"]), "solver_options": skw}
 
@@ -384,7 +402,7 @@ def run_leg(ctx):
     from harness.common.lean import LeanBatch
 
     rng = ctx.rng
-    n_run = ctx.budget(58, 232)
+    n_run = ctx.budget(72, 288)
     cases = []
     while len(cases) < n_run:
         for st in RUN_STRATA:
